@@ -190,6 +190,10 @@ def _rename_step(bits, pair):
     nothing else does.
     """
     cmds = [("create", n) for i, n in enumerate(UNIVERSE) if (bits >> i) & 1] + [("rename",) + PAIRS[pair]]
+    if core.PARAMS.get("recreate"):
+        # the old name (and one former child) is created again after the RENAME: it must be a new, listed, empty
+        # mailbox of its own, not an alias of the renamed one (nothing of the old name may survive in the server)
+        cmds += [("create", PAIRS[pair][0]), ("create", PAIRS[pair][0] + "/b")]
     _run_cmds(cmds, 0, "rename_step", probes=[("", "*"), ("", "%"), ("", "%/%")])
 
 
@@ -298,6 +302,8 @@ def jobs(tier):
     for pair in range(len(PAIRS)):
         for lo in range(0, 128, 16):
             js.append({"name": f"rename_step[{PAIRS[pair][0]}->{PAIRS[pair][1]},{lo}]", "fn": "rename_step", "params": {"pair": pair, "lo": lo, "hi": lo + 16}, "timeout": T if q else 1200, "per_path": 120, "unblock": UNBLOCK})
+            if pair in (0, 3, 4) and (not q or lo % 32 == 16):  # quick: the halves of the universe where `a` (bit 0) and its children are mixed
+                js.append({"name": f"rename_step[{PAIRS[pair][0]}->{PAIRS[pair][1]},{lo}]+recreate", "fn": "rename_step", "params": {"pair": pair, "lo": lo, "hi": lo + 16, "recreate": True}, "timeout": T if q else 1200, "per_path": 120, "unblock": UNBLOCK})
     return js
 
 
